@@ -110,6 +110,65 @@ class NpShim:
         return abs(a - b) <= atol + rtol * abs(b)
 
 
+MACH2CAS = z3.Function("MACH2CAS", R, R, R)
+MACH2TAS = z3.Function("MACH2TAS", R, R, R)
+CAS2TAS = z3.Function("CAS2TAS", R, R, R)
+
+
+def _aero_stub(orig, uf):
+    def f(a, b):
+        if not (is_sym(a) or is_sym(b)):
+            return orig(a, b)
+        return SymReal(uf(SymReal.of(a).t, SymReal.of(b).t))
+    f.__symx_stub__ = True
+    f.__name__ = getattr(orig, "__name__", "aero")
+    return f
+
+
+class CapList:
+    """contract stub for bds17.cap17 inside is17 (cap17 itself is checked in C11/C14): 'BDSxx' in caps <=> its bit"""
+    ALL = ["05", "06", "07", "08", "09", "0A", "20", "21", "40", "41", "42", "43", "44", "45", "48", "50", "51", "52",
+           "53", "54", "55", "56", "5F", "60"]
+
+    def __init__(self, bits):
+        self.bits = bits      # SymStr / str of 24 chars
+
+    def __contains__(self, item):
+        if isinstance(item, str) and item.startswith("BDS") and item[3:] in self.ALL:
+            i = self.ALL.index(item[3:])
+            r = self.bits[i] == "1"
+            return bool(r)
+        return False
+
+
+def install_cap17_contract(pm):
+    b17 = pm.decoder.bds.bds17
+    if getattr(b17.cap17, "__symx_stub__", False):
+        return
+    orig = b17.cap17
+    common = pm.common
+
+    def cap17(msg):
+        if not is_sym(msg):
+            return orig(msg)
+        d = common.hex2bin(common.data(msg))
+        return CapList(d[:24])
+    cap17.__symx_stub__ = True
+    cap17.__wrapped__ = orig
+    b17.cap17 = cap17
+
+
+def install_summaries(pm, names=("is10", "is17", "is20", "is30", "is40", "is44", "is45", "is50", "is60")):
+    """replace common.wrongstatus and the named bdsXX.isXX by summarized versions (idempotent)"""
+    if not getattr(pm.common.wrongstatus, "__symx_summary__", None):
+        pm.common.wrongstatus = core.summarized(pm.common.wrongstatus, "wrongstatus")
+    for n in names:
+        mod = getattr(pm.decoder.bds, "bds" + n[2:])
+        f = getattr(mod, n)
+        if not getattr(f, "__symx_summary__", None):
+            setattr(mod, n, core.summarized(f, n))
+
+
 def install(pm):
     """patch module namespaces of the loaded (rewritten) pyModeS"""
     import sys
@@ -122,4 +181,9 @@ def install(pm):
                 d["math"] = ms
             if "np" in d and getattr(d["np"], "__name__", "") == "numpy":
                 d["np"] = ns
+    aero = sys.modules.get("pyModeS.extra.aero")
+    if aero is not None and not getattr(aero.mach2cas, "__symx_stub__", False):
+        aero.mach2cas = _aero_stub(aero.mach2cas, MACH2CAS)
+        aero.mach2tas = _aero_stub(aero.mach2tas, MACH2TAS)
+        aero.cas2tas = _aero_stub(aero.cas2tas, CAS2TAS)
     return pm
